@@ -11,16 +11,19 @@
 
 #include <ufw/byte-buffer.h>
 #include <ufw/crc/crc16-arc.h>
+#include <ufw/variable-length-integer.h>
+#include <errno.h>
 
 #define MAXSZ 1024u
 
-static FILE *fbb, *fcrc;
+static FILE *fbb, *fcrc, *fvi;
 static int opened;
 static unsigned long skipped;
 static void fin(void)
 {
     if (fbb) { fprintf(fbb, "{\"op\":\"skipped\",\"a\":[%lu],\"o\":[],\"asan\":0}\n", skipped); fclose(fbb); }
     if (fcrc) fclose(fcrc);
+    if (fvi) fclose(fvi);
 }
 static void open_once(void)
 {
@@ -31,6 +34,7 @@ static void open_once(void)
     char path[4096];
     snprintf(path, sizeof path, "%s.bb", p); fbb = fopen(path, "a");
     snprintf(path, sizeof path, "%s.crc", p); fcrc = fopen(path, "a");
+    snprintf(path, sizeof path, "%s.vi", p); fvi = fopen(path, "a");
     atexit(fin);
 }
 
@@ -226,3 +230,57 @@ uint16_t __wrap_ufw_buffer_crc16_arc_u16(const uint16_t *data, size_t n)
     }
     return r;
 }
+
+/* ---- varint: buffer decoders, encoders, length queries (vocabulary of VarintTrace.tla: values as 7-bit groups, least significant first)
+ *   sdecb ty n o1..on | rc consumed g1..gm     (the n octets from the read offset to the end of the buffer's memory, at most 12)
+ *   senc ty g1..gm | rc (used - offset) e1..     (only successful calls)          slen ty g1..gm | length */
+static void vgroups(FILE *f, uint64_t v, int m) { for (int i = 0; i < m; i++) fprintf(f, ",%u", (unsigned)((v >> (7 * i)) & 0x7f)); }
+#define VDEC(NAME, T, U, TY, M)                                                                             \
+    int __real_varint_decode_##NAME(ByteBuffer *, T *);                                                   \
+    int __wrap_varint_decode_##NAME(ByteBuffer *b, T *v)                                                  \
+    {                                                                                                     \
+        open_once();                                                                                      \
+        if (!fvi || b->data == NULL || b->offset > b->size) return __real_varint_decode_##NAME(b, v);      \
+        size_t n = b->size - b->offset; if (n > 12) n = 12;                                               \
+        unsigned char in[12]; memcpy(in, b->data + b->offset, n);                                         \
+        size_t off = b->offset;                                                                           \
+        int rc = __real_varint_decode_##NAME(b, v);                                                       \
+        fprintf(fvi, "{\"op\":\"sdecb\",\"a\":[%d,%zu", TY, n); octets(fvi, in, n);                          \
+        fprintf(fvi, "],\"o\":[%d,%zu", rc >= 0 ? rc : (rc == -EILSEQ ? -84 : -1), b->offset - off);        \
+        if (rc >= 0) vgroups(fvi, (uint64_t)(U)*v, M);                                                     \
+        fprintf(fvi, "],\"asan\":0}\n");                                                                   \
+        return rc;                                                                                        \
+    }
+VDEC(u32, uint32_t, uint32_t, 32, 5)
+VDEC(s32, int32_t, uint32_t, 32, 5)
+VDEC(u64, uint64_t, uint64_t, 64, 10)
+VDEC(s64, int64_t, uint64_t, 64, 10)
+#define VENC(NAME, T, U, TY, M)                                                                           \
+    int __real_varint_encode_##NAME(ByteBuffer *, T);                                                     \
+    int __wrap_varint_encode_##NAME(ByteBuffer *b, T v)                                                   \
+    {                                                                                                     \
+        open_once();                                                                                      \
+        size_t off = b->offset;                                                                           \
+        int rc = __real_varint_encode_##NAME(b, v);                                                       \
+        if (fvi && rc >= 0) {                                                                             \
+            fprintf(fvi, "{\"op\":\"senc\",\"a\":[%d", TY); vgroups(fvi, (uint64_t)(U)v, M);                   \
+            fprintf(fvi, "],\"o\":[%d,%zu", rc, b->used - off); octets(fvi, b->data + off, (size_t)rc);    \
+            fprintf(fvi, "],\"asan\":0}\n");                                                               \
+        }                                                                                                 \
+        return rc;                                                                                        \
+    }                                                                                                     \
+    size_t __real_varint_##NAME##_length(T);                                                              \
+    size_t __wrap_varint_##NAME##_length(T v)                                                             \
+    {                                                                                                     \
+        open_once();                                                                                      \
+        size_t r = __real_varint_##NAME##_length(v);                                                      \
+        if (fvi) {                                                                                        \
+            fprintf(fvi, "{\"op\":\"slen\",\"a\":[%d", TY); vgroups(fvi, (uint64_t)(U)v, M);                   \
+            fprintf(fvi, "],\"o\":[%zu],\"asan\":0}\n", r);                                                \
+        }                                                                                                 \
+        return r;                                                                                         \
+    }
+VENC(u32, uint32_t, uint32_t, 32, 5)
+VENC(s32, int32_t, uint32_t, 32, 5)
+VENC(u64, uint64_t, uint64_t, 64, 10)
+VENC(s64, int64_t, uint64_t, 64, 10)
